@@ -25,7 +25,7 @@ LaTeXRenderer, XWiki20Renderer (parse inside the renderer's context) and AstRend
            include_source in {False, True}, plus traverse(child) / traverse(child, include_source=True)
            for every top-level block as the source;
            light grid (ALPHA part): default, include_source=True, depth=0..3, klass in {Paragraph, RawText,
-           ListItem} alone and with include_source=True, depth=2
+           ListItem} alone and with include_source=True, depth=2, klass=SpanToken (a base class)
  ast       json.loads(AstRenderer().render(doc)) (own context) resp. json.loads(json.dumps(get_ast(doc)))
            mirrors the tree: type names, children (recursively, same order), header, line numbers, content
 
@@ -49,7 +49,7 @@ import random
 from collections import deque
 
 from runtime.common import use_repo, spec_examples, pool_map, merge
-from runtime.mtutil import reset_state, alpha_tasks, task_strings, keep_smallest, BLOCKS, SIG
+from runtime.mtutil import reset_state, alpha_tasks, task_strings, keep_smallest, BLOCKS
 
 use_repo()
 from mistletoe import Document, block_token as bt, span_token as st, token as tk  # noqa: E402
@@ -200,6 +200,7 @@ def check_traverse(doc, nodes, full):
         combos = [(None, None, False), (None, None, True)] + [(None, k, False) for k in (0, 1, 2, 3)]
         for K in KLASSES:
             combos += [(K, None, False), (K, 2, True)]
+        combos.append((st.SpanToken, None, False))
     n = 0
     for K, d, inc in combos:
         n += 1
@@ -244,11 +245,11 @@ def mirror(tok, node, path='$'):
 
 
 # ------------------------------------------------------------------ coverage features (directed part only)
-def features(doc, nodes, hdr_nodes):
+def features(x, doc, nodes, hdr_nodes):
     f = set()
     for tok, par, _ in nodes + hdr_nodes:
         name = type(tok).__name__
-        f.add('edge:%s>%s' % (type(par).__name__, name))
+        f.add('edge:%s>%s' % (type(par).__name__ if par is not None else 'Table.header', name))
         if name == 'Table' and 'header' in vars(tok):
             ncol = len(tok.column_align)
             anc, p = [], par
@@ -256,11 +257,14 @@ def features(doc, nodes, hdr_nodes):
                 anc.append(type(p).__name__)
                 p = p.parent
             where = 'ListItem' if 'ListItem' in anc else 'Quote' if 'Quote' in anc else 'top'
-            nh = len(tok.header.children or ())
-            f.add('table-header-%s@%s' % ('short' if nh < ncol else 'long' if nh > ncol else 'full', where))
-            for r in tok.children or ():
+            f.add('table@' + where)
+            # a source row with fewer cells than columns is padded, so only the generator knows about it
+            for tag in TABLE_TAGS.get(x, ()):
+                f.add('table-source-%s@%s' % (tag, where))
+            for r in [tok.header] + list(tok.children or ()):
                 nr = len(r.children or ())
-                f.add('table-row-%s@%s' % ('short' if nr < ncol else 'long' if nr > ncol else 'full', where))
+                kind = 'header' if r is tok.header else 'row'
+                f.add('table-%s-%s@%s' % (kind, 'fewer-cells' if nr < ncol else 'more-cells' if nr > ncol else 'as-many-cells', where))
         if name in ('ListItem', 'Quote', 'TableCell', 'Paragraph', 'Heading', 'SetextHeading') and not tok.children:
             f.add('empty:' + name)
     if not doc.children:
@@ -297,7 +301,7 @@ def check_doc(x, setname, renderer, full):
         raise
     except Exception as e:  # noqa
         bad.append(('ast', '%s: %s' % (type(e).__name__, e)))
-    return bad, len(nodes) > 2, ncalls, (features(doc, nodes, hdr_nodes) if full else ())
+    return bad, len(nodes) > 2, ncalls, (features(x, doc, nodes, hdr_nodes) if full else ())
 
 
 def classify(clause, msg):
@@ -366,6 +370,9 @@ def table_row(cells, style):
     return ('| ' if style in (0, 2) else '') + s + (' |' if style in (0, 3) else '')
 
 
+TABLE_TAGS = {}  # generated table document -> what its source rows look like (the tree no longer shows it)
+
+
 def table_docs():
     docs, k = [], 0
 
@@ -379,12 +386,17 @@ def table_docs():
         for h in sorted({max(n - 1, 0), n, n + 1}):
             for body in bodies:
                 for style in range(4):
-                    lines = [table_row(cells(h), style), table_row(ALIGNS[(k + style) % 5:][:n] + ALIGNS[:max(0, n - 5 + (k + style) % 5)], style)]
+                    lines = [table_row(cells(h), style), table_row([ALIGNS[(k + style + i) % 5] for i in range(n)], style)]
                     for r in body or ():
                         lines.append(table_row(cells(max(r, 0)), style))
                     t = '\n'.join(lines)
+                    tags = (['header-short'] if h < n else ['header-long'] if h > n else []) + \
+                           (['row-short'] if any(r < n for r in body or ()) else []) + \
+                           (['row-long'] if any(r > n for r in body or ()) else []) + \
+                           (['row-without-cells'] if 0 in (body or ()) else [])
                     for _, ctx in TABLE_CONTEXTS:
                         docs.append(ctx(t))
+                        TABLE_TAGS[docs[-1]] = tags
     docs += [
         '|a|b|\n|-|-|\n|1|2|\n\n|a|b|\n|-|-|\n|1|2|',           # identical sibling tables
         '|a|a|\n|-|-|\n|a|a|\n|a|a|',                           # identical cells and rows
@@ -525,10 +537,6 @@ def seeded_docs(seed, n=1500):
     return docs
 
 
-def in_alpha(x, n28, n12):
-    return (len(x) <= n28 and all(c in SIG['SIGMA28'] for c in x)) or (len(x) <= n12 and all(c in SIG['SIGMA12'] for c in x))
-
-
 # ------------------------------------------------------------------ work units
 def _extra_sets():
     import importlib
@@ -657,7 +665,7 @@ def run(tier, seed, workers):
                 'inputs, contract_evaluations = input x token set; non-trivial = the Html-token-set tree has more than two '
                 'tokens below the document; traverse_calls = calls of utils.traverse compared with the independent walk; '
                 'coverage = number of spec/directed/seeded inputs whose tree (any token set) shows the feature '
-                '(edge:Parent>Child, table-row-short/long@where, empty:Kind)' % len(seeded),
+                '(edge:Parent>Child, table-source-<shape of the source rows>@where, table-row-<cells vs columns in the tree>@where, empty:Kind)' % len(seeded),
         'exhaustive': False, 'failures_total': sum(r['failures_total'] for r in res),
         'traverse_calls': sum(r['traverse_calls'] for r in res),
         'failures_by_class': dict(sorted(by_class.items(), key=lambda kv: -kv[1])),
